@@ -1376,7 +1376,7 @@ package apd
 //@   ensures [inv] inv(d)
 
 //@ func (*Context).Cbrt
-//@   props C03 C04 C05 C06 C08 C18
+//@   props C03 C04 C05 C06 C07 C08 C18
 //@   exported
 //@   requires writable(d) && inv(x)
 //@   assigns d
@@ -1390,6 +1390,7 @@ package apd
 //@   loop 5 invariant closed(ed.Flags) && ed.Ctx == nc && nc != nil && inv(z) && inv(ax) && inv(z0) && old(inv(d)) == inv(d) && loop != nil && writable(loop) && loop.c == nc && loop.arg != nil && inv(loop.prevZ) && inv(loop.delta)
 //@   loop 5 decreases wrap64u(loop.maxIterations - loop.i - 1)
 //@   ensures [closed] closed(ret0)
+//@   ensures [fits] wfctx(c) && ret1 == nil && !hassys(res) ==> fits(c, d)
 //@   ensures [trap] trapped(c, ret0) ==> ret1 != nil
 //@   ensures [edclean] ret1 == nil ==> edclean(ed)
 //@   ensures [nan] NaN1(x, d, ret0)
@@ -1397,7 +1398,7 @@ package apd
 //@   ensures [inf] old(x.Form == Infinite && !x.Negative) ==> (d.Form == Infinite && !d.Negative && ret0 == 0)
 
 //@ func (*Context).Exp
-//@   props C03 C04 C05 C06 C08 C18
+//@   props C03 C04 C05 C06 C07 C08 C18
 //@   exported
 //@   requires writable(d) && inv(x) && c.Precision <= 2000000000
 //@   assigns d
@@ -1405,6 +1406,7 @@ package apd
 //@   loop 1 invariant closed(ed.Flags) && ed.Ctx == nc && nc != nil && writable(nc) && nc != c && inv(sum) && inv(tmp1) && inv(tmp2) && inv(r) && old(inv(d)) == inv(d)
 //@   loop 1 decreases i
 //@   ensures [closed] closed(ret0)
+//@   ensures [fits] wfctx(c) && ret1 == nil && !hassys(ret0) ==> fits(c, d)
 //@   ensures [trap] trapped(c, ret0) ==> ret1 != nil
 //@   ensures [edclean] ret1 == nil ==> edclean(ed)
 //@   ensures [nan] NaN1(x, d, ret0)
@@ -1413,7 +1415,7 @@ package apd
 //@   ensures [zero] old(iszero(x)) ==> (d.Form == Finite && val(d.Coeff) == 1 && d.Exponent == 0 && !d.Negative && ret0 == 0)
 
 //@ func (*Context).Ln
-//@   props C03 C04 C05 C06 C08 C18
+//@   props C03 C04 C05 C06 C07 C08 C18
 //@   exported
 //@   requires writable(d) && inv(x) && c.Precision <= 1500000000
 //@   assigns d
@@ -1423,6 +1425,7 @@ package apd
 //@   loop 2 invariant closed(ed.Flags) && ed.Ctx == nc && nc != nil && writable(nc) && nc != c && inv(tmp1) && inv(tmp2) && inv(tmp3) && inv(tmp4) && inv(z) && inv(resAdjust) && old(inv(d)) == inv(d) && loop != nil && writable(loop) && loop.c == nc && loop.arg != nil && inv(loop.prevZ) && inv(loop.delta)
 //@   loop 2 decreases wrap64u(loop.maxIterations - loop.i - 1)
 //@   ensures [closed] closed(ret0)
+//@   ensures [fits] wfctx(c) && ret1 == nil && !hassys(ret0) ==> fits(c, d)
 //@   ensures [trap] trapped(c, ret0) ==> ret1 != nil
 //@   ensures [edclean] ret1 == nil ==> edclean(ed)
 //@   ensures [nan] NaN1(x, d, ret0)
@@ -1551,12 +1554,13 @@ package apd
 //@   ensures [same] old(x.Form == Finite && inrange(x) && (!x.Negative || !fracnz(x))) ==> (d.Form == Finite && d.Negative == old(x.Negative) && val(d.Coeff) == old(intpart(x)) && d.Exponent == max(old(x.Exponent), 0) && ret0 == 0)
 
 //@ func (*Context).Pow
-//@   props C03 C04 C05 C06 C08 C18
+//@   props C03 C04 C05 C06 C07 C08 C18
 //@   exported
 //@   requires writable(d) && inv(x) && inv(y) && c.Precision <= 1000000000
 //@   assigns d
 //@   ensures [invkeep] old(inv(d)) ==> inv(d)
 //@   ensures [closed] closed(ret0)
+//@   ensures [fits] wfctx(c) && ret1 == nil && !hassys(ret0) ==> fits(c, d)
 //@   ensures [trap] trapped(c, ret0) ==> ret1 != nil
 //@   ensures [edclean] ret1 == nil ==> edclean(ed)
 //@   ensures [nan] NaN2(x, y, d, ret0)
